@@ -56,7 +56,8 @@ def gen_case(seed, i):
     isolate_d = (not isolate_g) and rng.random() < 0.25
     if isolate_d:
         for r in rng.sample(roots, rng.randint(1, nroots)):
-            dflags += ["--isolate", "@W@/" + r]
+            # spelled absolute, relative to the working directory of the dedupe command (= the world), ./x or x/../x
+            dflags += ["--isolate", rng.choice(["@W@/" + r, "@W@/" + r, "./" + r, "./" + r + "/", "./%s/../%s" % (r, r)])]
     if rng.random() < 0.2:
         (gflags if rng.random() < 0.5 else dflags).append("-H")
     rf = None
@@ -152,7 +153,7 @@ def model_drop(case, rd, rep, labels_by_path):
     if case["isolate_g"]:
         isolate_roots = [os.path.join(W, r) for r in case["roots"]]
     df = case["dflags"]
-    d_iso = [df[k + 1].replace("@W@", W) for k in range(len(df) - 1) if df[k] == "--isolate"]
+    d_iso = [os.path.normpath(os.path.join(W, df[k + 1].replace("@W@", W))) for k in range(len(df) - 1) if df[k] == "--isolate"]
     if d_iso:
         isolate_roots = d_iso
     match_links = "-H" in case["gflags"] or "-H" in df
@@ -289,10 +290,10 @@ def run_case(case):
         op = case["op"]
         target = os.path.join(rd.world, "T")
         dry = ops.dedupe(rd, op, g.out, extra=dflags + ["--dry-run"], target=target, env=env, labels=labels,
-                         now_ns=T0_NS + 3600 * 10**9, seed=4)
+                         now_ns=T0_NS + 3600 * 10**9, seed=4, cwd=rd.world)
         before = inventory(rd.world)
         real = ops.dedupe(rd, op, g.out, extra=dflags, target=target, env=env, labels=labels,
-                          now_ns=T0_NS + 3600 * 10**9, seed=4, threads_env=1)
+                          now_ns=T0_NS + 3600 * 10**9, seed=4, threads_env=1, cwd=rd.world)
         after = inventory(rd.world)
 
         def V(clause, detail):
